@@ -350,6 +350,10 @@ def st_amp_settings(draw, band):
                                                     {'avg_type': 'mean'}, {'filter_type': 'fir'}, {'n_cycles': 2, 'magnitude_type': 'power'}]))
     use_bk = bool(bk) or draw(st.booleans())
     use_th = bool(th) or draw(st.integers(0, 4)) > 0
+    if draw(st.integers(0, 11)) == 0:
+        # one and the same settings dict used for both option arguments (only min_n_cycles is a key of both)
+        k = draw(st.integers(0, 5))
+        return {'min_n_cycles': k}, {'min_n_cycles': k}, 'same-object'
     return (bk if use_bk else None), (th if use_th else None), routing
 
 
@@ -363,10 +367,12 @@ def st_analysis_case(draw, methods=('cycles', 'amp'), centers=('peak', 'trough')
     center = draw(st.sampled_from(list(centers)))
     bk = th = None
     routing = None
+    one_object = False
     amp_fk = None
     if method == 'amp':
         bk, th, routing = draw(st_amp_settings(band))
         amp_fk = (bk or {}).get('filter_kwargs')
+        one_object = routing == 'same-object'
         if bk is not None and draw(st.integers(0, 5)) == 0:
             # an options dict carried over from another recording: its own fs / f_range entries (documented keys of
             # compute_burst_features) are replaced by the arguments of the call
@@ -409,7 +415,7 @@ def st_analysis_case(draw, methods=('cycles', 'amp'), centers=('peak', 'trough')
             fek['pad'] = False               # documented option of find_extrema: no zero padding before filtering
     sig = draw(st_signal(band, n, tie_rich=tie_rich, bursty=bursty))
     return {'fs': fs, 'f_range': [f_lo, f_hi], 'sig': sig, 'center': center, 'method': method,
-            'fek': fek, 'th': th, 'bk': bk, 'routing': routing,
+            'fek': fek, 'th': th, 'bk': bk, 'routing': routing, 'one_options_object': one_object,
             'return_samples': draw(st.sampled_from([True, True, False])),
             'variant': draw(st_variant())}
 
@@ -468,6 +474,8 @@ def cf_kwargs(case, **override):
                 kw[key] = _np_scalars(kw[key])
             if v.get('reverse_keys'):
                 kw[key] = _reverse_keys(kw[key])
+    if case.get('one_options_object') and kw['burst_kwargs'] is not None and kw['burst_kwargs'] == kw['threshold_kwargs']:
+        kw['threshold_kwargs'] = kw['burst_kwargs']       # the caller keeps ONE dict and passes it for both option arguments
     kw.update(override)
     return kw
 
